@@ -161,6 +161,8 @@ pub struct Ctx {
     pub failed: AtomicBool,
     pub rule: Mutex<String>,
     pub assumptions: Mutex<Vec<String>>,
+    /// label appended to the check name in the per-sub-check statistics
+    pub label: Mutex<String>,
 }
 
 fn splitmix(mut z: u64) -> u64 {
@@ -281,6 +283,7 @@ impl Ctx {
             failed: AtomicBool::new(false),
             rule: Mutex::new(String::new()),
             assumptions: Mutex::new(Vec::new()),
+            label: Mutex::new(String::new()),
         }
     }
     pub fn thorough(&self) -> bool {
@@ -315,7 +318,18 @@ impl Ctx {
         self.known.iter().find(|k| k.property == self.id && k.sig == f.sig)
     }
 
-    fn merge(&self, sub: &str, l: Local, exhaustive: bool, bounds: &str, engine: &str) {
+    /// Statistics of the following run_* calls are recorded under
+    /// "<check name>/<label>" (empty label = just the check name).
+    pub fn label(&self, l: &str) {
+        *self.label.lock().unwrap() = l.to_string();
+    }
+    fn key(&self, sub: &str) -> String {
+        let l = self.label.lock().unwrap();
+        if l.is_empty() { sub.to_string() } else { format!("{}/{}", sub, l) }
+    }
+    fn merge(&self, check: &str, l: Local, exhaustive: bool, bounds: &str, engine: &str) {
+        let subk = self.key(check);
+        let sub = subk.as_str();
         let mut ev = self.ev.lock().unwrap();
         ev.cases += l.cases;
         ev.evals += l.evals;
@@ -329,7 +343,7 @@ impl Ctx {
         for (k, v) in l.known_hits {
             *ev.known_hits.entry(k).or_insert(0) += v;
         }
-        let have = ev.samples.iter().filter(|s| s["check"] == sub).count();
+        let have = ev.samples.iter().filter(|s| s["check"] == check).count();
         for s in l.samples.into_iter().take(2usize.saturating_sub(have)) {
             ev.samples.push(s);
         }
@@ -538,7 +552,8 @@ impl Ctx {
         });
         if let Some((_, case, f)) = best.into_inner().unwrap() {
             // an interrupted enumeration is not exhaustive
-            if let Some(s) = self.ev.lock().unwrap().subs.get_mut(chk.name()) {
+            let k = self.key(chk.name());
+            if let Some(s) = self.ev.lock().unwrap().subs.get_mut(&k) {
                 s.exhaustive = false;
             }
             self.report_violation(chk, &case, &f, "enumeration (smallest failing index)");
@@ -567,16 +582,7 @@ impl Ctx {
                 }
             }
         }
-        // keep engine label of an earlier proptest/enum run of the same check
-        let (ex, eng) = {
-            let ev = self.ev.lock().unwrap();
-            ev.subs.get(chk.name()).map(|s| (s.exhaustive, s.engine.clone())).unwrap_or((false, "fixed list".into()))
-        };
-        let b = {
-            let ev = self.ev.lock().unwrap();
-            ev.subs.get(chk.name()).map(|s| format!("{}; {}", s.bounds, bounds)).unwrap_or(bounds.to_string())
-        };
-        self.merge(chk.name(), local, ex, &b, &eng);
+        self.merge(chk.name(), local, false, bounds, "fixed list");
         if let Some((case, f)) = bad {
             self.report_violation(chk, &case, &f, "fixed list");
         }
